@@ -442,7 +442,8 @@ def run_property(pid, tier, seed):
         env["VERIF_PROP"] = pid
         corpus = os.path.join(VERIF, "corpus", eng.corpus)
         env["VERIF_HIST"] = corpus if os.path.isdir(corpus) else ""
-        rc, hout, trace = eng.run_impl(scratch, env)
+        # a harness that hangs (e.g. on a lock leaked by the code under test) is a broken correspondence: bound it
+        rc, hout, trace = eng.run_impl(scratch, env, timeout=(900 if tier == "quick" else 4 * 3600))
         harness_ok = rc == 0 and os.path.exists(trace)
         results, hists = [], []
         if harness_ok and okd:
